@@ -241,6 +241,18 @@ def check_b(ck, repo):
             offv = o.id if isinstance(o, ast.Name) else None
         if not not_understood:
             ck.verdict(bool(init) and offv is not None and _t(init[0].env.get(offv, "")) == "0", "C19.b", bs, f"{offv} = 0", "offsets start at 0", "offsets do not start at 0")
+    # ---- fit: which columns are categorical is decided by the column's dtype, not by its values
+    Xf0 = fit.named_params[1]
+    for comp in [c_ for c_ in ast.walk(fit.node) if isinstance(c_, (ast.ListComp, ast.GeneratorExp)) and c_.generators and c_.generators[0].ifs
+                 and any(src_of(g_.iter).replace(" ", "") in (f"{Xf0}.columns", f"zip({Xf0}.columns,{Xf0}.dtypes)", f"{Xf0}.dtypes.items()", f"{Xf0}", f"list({Xf0}.columns)") for g_ in c_.generators)]:
+        looked = []
+        for t_ in comp.generators[0].ifs:
+            for c_ in ast.walk(t_):
+                if isinstance(c_, ast.Call):
+                    for a_ in c_.args:
+                        if isinstance(a_, ast.Subscript) and src_of(a_.value) in (Xf0, f"{Xf0}.loc", f"{Xf0}.iloc"):
+                            looked.append(c_)
+        ck.verdict(not looked, "C19.b", fit, comp, "the categorical columns are chosen by dtype", f"the categorical columns are chosen by `{src_of(looked[0])[:60]}`, which is given the column itself: such predicates look at the VALUES of an object column (all strings?), so a column holding a missing value in the training frame is not categorical any more: none of its rows gets an indicator (or a rank) and its unseen categories are never reported" if looked else "")
     # ---- fit: ranks = enumerate(sorted(distinct non-missing values)); schema rebuilt
     from .sem import attribute_held_in_local, drop_caches
 
